@@ -276,9 +276,20 @@ func oneFlavour(w0 *ev.W, v tbin.Value, flavour string) {
 		}
 		for _, skip := range idxs {
 			want := without(v, skip).Key()
-			for _, ck := range chunk.All(len(ref), false, false)[:2] {
+			// (reads: whole and 1-byte from a plain reader; whole from a reader that can seek -
+			// Skip becomes Seek - and from one whose Seek method always fails, as on a pipe)
+			cks := append([]chunk.Chunking{}, chunk.All(len(ref), false, false)[:2]...)
+			cks = append(cks, chunk.Chunking{Name: "whole[seekable]"}, chunk.Chunking{Name: "whole[pipe-like]"})
+			for _, ck := range cks {
 				cr := ck.New(ref)
-				sr := binary.Default.Reader(cr)
+				var rd io.Reader = cr
+				switch ck.Name {
+				case "whole[seekable]":
+					rd = chunk.Seekable{Reader: cr}
+				case "whole[pipe-like]":
+					rd = chunk.PipeLike{Reader: cr}
+				}
+				sr := binary.Default.Reader(rd)
 				sv, err := wirex.StreamReadSkipping(sr, v.T, skip)
 				sr.Close()
 				w.Count("stream_skip_runs", 1)
